@@ -30,6 +30,15 @@ Definition gt_wfb (t : gtime) : bool := in_i64b (gt_sec t) && (0 <=? gt_nsec t) 
 (* the instant a Time denotes: nanoseconds since January 1, year 1 (unbounded) *)
 Definition gt_abs (t : gtime) : Z := gt_sec t * ns_per_s + gt_nsec t.
 
+(* conversion from and to a time given as ONE unbounded integer of Unix nanoseconds (the time model of
+   the source translator, GenLib/GoSem.v: nanoseconds since 1970-01-01, Sub saturating, Add exact) *)
+Definition unix_off : Z := 62135596800 * ns_per_s.                 (* time.unixToInternal, in ns *)
+Definition gt_unix (t : gtime) : Z := gt_abs t - unix_off.
+Definition gt_of_abs (a : Z) : gtime := {| gt_sec := a / ns_per_s; gt_nsec := a mod ns_per_s |}.
+Definition gt_of_unix (u : Z) : gtime := gt_of_abs (u + unix_off).
+(* the Unix-nanosecond values that are time.Time values: exactly the image of gt_wf under gt_unix *)
+Definition unix_repr (u : Z) : Prop := min_i64 * ns_per_s <= u + unix_off < (max_i64 + 1) * ns_per_s.
+
 (* func (t Time) After(u Time) bool { ts := t.sec(); us := u.sec(); return ts > us || ts == us && t.nsec() > u.nsec() } *)
 Definition gt_after (t u : gtime) : bool :=
   (gt_sec u <? gt_sec t) || ((gt_sec t =? gt_sec u) && (gt_nsec u <? gt_nsec t)).
